@@ -407,4 +407,167 @@ theorem scheduleTask_framedT2 (e : Env) (wf : WF e) (σ : St) (t : Nat) (sel : L
       simp only [hfin', Bool.not_false, if_true] at hok
       exact Bool.noConfusion hok
 
+/-- one backward team task: framed and ordered -/
+theorem scheduleTask_framed_backT2 (e : Env) (wf : WF e) (σ : St) (t : Nat) (sel : List Nat) (η : Rat) (r : Nat) (hr : r ∈ sel)
+    (hinv : Inv e σ) (hel : TeamElig e t sel η) (hb : t < σ.ts.size) (hf : (σ.tst t).forward = false)
+    (hnd : (σ.tst t).done = false) (hclean : ∀ m ∈ sel, ∀ i, usageOf (σ.led.get m i).usage t = none)
+    (hok : (scheduleTask e σ t).2 = true) : Framed e (scheduleTask e σ t).1 t r ∧ Ordered (scheduleTask e σ t).1 t := by
+  have hpos := hel.effort
+  have hpc : preStartCursor e σ t (initCursor e σ t).1 = (initCursor e σ t).1 := by
+    unfold preStartCursor; simp [hf]
+  have hpt : preStartT e σ t (initCursor e σ t).1 = σ.tst t := by
+    unfold preStartT; simp [hf]
+  have hoff := initCursor_off e σ t wf
+  unfold scheduleTask at hok ⊢
+  simp only [hnd, Bool.false_eq_true, if_false, hpc, hpt, hf] at hok ⊢
+  have h0 : Inv e (σ.setT t (σ.tst t)) := inv_setT _ _ hinv
+  by_cases hout : ((initCursor e σ t).1 < 0 || (initCursor e σ t).1 > e.upper) = true
+  · simp only [hout, if_true] at hok
+    exact Bool.noConfusion hok
+  · simp only [hout, Bool.false_eq_true, if_false] at hok ⊢
+    have hw : WalkOk e t { cur := (initCursor e σ t).1, offset := (initCursor e σ t).2 } :=
+      ⟨hoff.1, hoff.2, wf.effort_nonneg t⟩
+    have hacc : TAcc e (σ.setT t (σ.tst t)) t sel η false
+        { cur := (initCursor e σ t).1, offset := (initCursor e σ t).2 } [] :=
+      ⟨fun m hm i _ => hclean m hm i, fun i hi => absurd hi List.not_mem_nil,
+       fun m _ => by show (0 : Rat) = sumOver _ m t [] / 3600 * η; simp only [sumOver]; grind, List.nodup_nil,
+       fun m hm m' hm' i => by
+         show usageOf (σ.led.get m i).usage t = usageOf (σ.led.get m' i).usage t
+         rw [hclean m hm i, hclean m' hm' i]⟩
+    have hbi : BInvT e (σ.setT t (σ.tst t)) t sel η r { cur := (initCursor e σ t).1, offset := (initCursor e σ t).2 } [] := by
+      refine ⟨hacc, by rw [size_setT]; exact hb, by rw [tst_setT_same _ _ _ hb]; exact hf,
+        ⟨fun _ i hi => absurd hi List.not_mem_nil, fun fb hfb => by simp at hfb⟩⟩
+    have hs0 : selectedOf e (σ.setT t (σ.tst t)) t { cur := (initCursor e σ t).1, offset := (initCursor e σ t).2 } = sel := by
+      unfold selectedOf; exact hel.pick _ _
+    by_cases hfin : (walkLoop e t false (e.size.toNat + 3) (σ.setT t (σ.tst t))
+        { cur := (initCursor e σ t).1, offset := (initCursor e σ t).2 }).2.2 = true
+    · simp only [hfin, Bool.not_true, Bool.false_eq_true, if_false] at hok ⊢
+      obtain ⟨lo, fb, hfbw, hle, hlone, hfbne, hall, ⟨v, hv, hv1, hv2⟩⟩ :=
+        walkLoop_back_doneT e wf t sel η r hr _ _ _ [] h0 hel.leaf hw hel.alloc hel.nomile hs0 hel.isTeam hel.nodup
+          hel.eff hel.effpos hpos hpos hbi hfin
+      have hsz : t < (walkLoop e t false (e.size.toNat + 3) (σ.setT t (σ.tst t))
+          { cur := (initCursor e σ t).1, offset := (initCursor e σ t).2 }).1.ts.size := by
+        rw [(walkLoop_frame e t false _ _ _).2.2.2.2, size_setT]; exact hb
+      have hdec : decide ((e.taskD t).effort > 0) = true := by simpa using hpos
+      have hord : v ≤ e.time (fb + 1) := Int.le_trans hv2 (time_mono e wf _ _ (by omega))
+      refine ⟨⟨lo, fb, hle, hlone, hfbne, hall, ⟨v, ?_, hv1, hv2⟩, ⟨e.time (fb + 1), ?_, ?_, Int.le_refl _⟩⟩,
+        ⟨v, e.time (fb + 1), ?_, ?_, hord⟩⟩
+      · rw [tst_setT_same _ _ _ hsz]
+        unfold finalT
+        simp only [Bool.false_eq_true, if_false, hv, Option.isNone_some, hdec, Bool.true_or, if_true]
+      · rw [tst_setT_same _ _ _ hsz]
+        unfold finalT
+        simp only [Bool.false_eq_true, if_false, hv, Option.isNone_some, hdec, Bool.true_or, if_true, hfbw, Option.getD_some]
+      · exact time_mono e wf _ _ (by omega)
+      · rw [tst_setT_same _ _ _ hsz]
+        unfold finalT
+        simp only [Bool.false_eq_true, if_false, hv, Option.isNone_some, hdec, Bool.true_or, if_true]
+      · rw [tst_setT_same _ _ _ hsz]
+        unfold finalT
+        simp only [Bool.false_eq_true, if_false, hv, Option.isNone_some, hdec, Bool.true_or, if_true, hfbw, Option.getD_some]
+    · have hfin' : (walkLoop e t false (e.size.toNat + 3) (σ.setT t (σ.tst t))
+        { cur := (initCursor e σ t).1, offset := (initCursor e σ t).2 }).2.2 = false := by simpa using hfin
+      simp only [hfin', Bool.not_false, if_true] at hok
+      exact Bool.noConfusion hok
+
+/-! ### the pick loop -/
+
+def DoneOrderedT (e : Env) (σ : St) : Prop :=
+  ∀ t sel η, TeamElig e t sel η → (σ.tst t).done = true → Ordered σ t
+
+structure OrdInvT (e : Env) (σ : St) (tasks : List Nat) : Prop where
+  inv : Inv e σ
+  nodup : tasks.Nodup
+  leaf : ∀ t ∈ tasks, (e.taskD t).leaf = true
+  inrange : ∀ t ∈ tasks, t < σ.ts.size
+  pending : ∀ t ∈ tasks, (σ.tst t).done = false ∧ ∀ r i, usageOf (σ.led.get r i).usage t = none
+  ok : DoneOrderedT e σ
+
+theorem ordInvT_step (e : Env) (wf : WF e) (σ : St) (tasks : List Nat) (t0 : Nat) (h : OrdInvT e σ tasks)
+    (hmem : t0 ∈ tasks) : OrdInvT e (updateContainers e (scheduleTask e σ t0).1) (tasks.erase t0) := by
+  have hlf0 := h.leaf t0 hmem
+  have hinv1 := scheduleTask_inv e σ t0 wf h.inv hlf0
+  have hsame : ∀ x, (e.taskD x).leaf = true → x ≠ t0 →
+      (updateContainers e (scheduleTask e σ t0).1).tst x = σ.tst x := by
+    intro x hx hne
+    rw [updateContainers_leaf e _ x hx, scheduleTask_other e σ t0 x hne]
+  refine ⟨updateContainers_inv e _ hinv1, h.nodup.erase t0, fun t ht => h.leaf t (List.mem_of_mem_erase ht), ?_, ?_, ?_⟩
+  · intro t ht
+    rw [updateContainers_size, scheduleTask_size]; exact h.inrange t (List.mem_of_mem_erase ht)
+  · intro t ht
+    have htm : t ∈ tasks := List.mem_of_mem_erase ht
+    have hne : t ≠ t0 := fun heq => by
+      rw [heq] at ht; exact (List.Nodup.not_mem_erase h.nodup) ht
+    obtain ⟨hd, hc⟩ := h.pending t htm
+    refine ⟨by rw [hsame t (h.leaf t htm) hne]; exact hd, fun r i => ?_⟩
+    rw [updateContainers_led, scheduleTask_same e σ t0 t (Ne.symm hne) r i]
+    exact hc r i
+  · intro t sel η hel hd
+    by_cases heq : t = t0
+    · subst heq
+      rw [updateContainers_leaf e _ t hel.leaf] at hd
+      obtain ⟨hnd, hclean⟩ := h.pending t hmem
+      have hok := scheduleTask_done e σ t hnd hd
+      have hne' : sel ≠ [] := by
+        intro hs; have := hel.many; rw [hs] at this; simp at this
+      obtain ⟨r, hr⟩ := List.exists_mem_of_ne_nil sel hne'
+      have hord : Ordered (scheduleTask e σ t).1 t := by
+        cases hfw : (σ.tst t).forward with
+        | true =>
+          exact (scheduleTask_framedT2 e wf σ t sel η r hr h.inv hel (h.inrange t hmem) hfw hnd (fun m _ => hclean m) hok).2
+        | false =>
+          exact (scheduleTask_framed_backT2 e wf σ t sel η r hr h.inv hel (h.inrange t hmem) hfw hnd (fun m _ => hclean m) hok).2
+      exact Ordered.of_tst (updateContainers_leaf e _ t hel.leaf) hord
+    · have hts := hsame t hel.leaf heq
+      rw [hts] at hd
+      exact Ordered.of_tst hts (h.ok t sel η hel hd)
+
+theorem DoneOrderedT.of_eq {e : Env} {σ σ' : St} (ht : σ'.ts = σ.ts) (h : DoneOrderedT e σ) : DoneOrderedT e σ' := by
+  unfold DoneOrderedT Ordered St.tst at *
+  rw [ht]; exact h
+
+theorem pickLoop_doneOrderedT (e : Env) (wf : WF e) (fuel : Nat) (tasks failed : List Nat) (σ : St)
+    (h : OrdInvT e σ tasks) : DoneOrderedT e (pickLoop e fuel tasks failed σ).1 := by
+  induction fuel generalizing tasks failed σ with
+  | zero => exact h.ok
+  | succ f ih =>
+    unfold pickLoop
+    split
+    · exact h.ok
+    · split
+      · rename_i t0 hfind
+        exact ih _ _ _ (ordInvT_step e wf σ tasks t0 h (List.mem_of_find?_eq_some hfind))
+      · split
+        · exact DoneOrderedT.of_eq (σ := σ) rfl h.ok
+        · exact h.ok
+
+/-- **start ≤ end for teams, end to end**: after scheduling any well-formed project, every completed team task whose members
+    share one efficiency has a reported start and a reported end with start ≤ end (both modes) -/
+theorem runScenario_orderedT (e : Env) (wf : WF e) : DoneOrderedT e (runScenario e) := by
+  unfold runScenario
+  have hprep : Inv e (prepare e (initState e)) := prepare_inv e _ (inv_init e wf)
+  have hd : DoneFalse (prepare e (initState e)) := prepare_doneFalse e _ (doneFalse_init e)
+  have hsz : (prepare e (initState e)).ts.size = e.tasks.size := by rw [prepare_size, initState_size]
+  have h2 : OrdInvT e (preLoop e (prepare e (initState e))) (todoOf e (preLoop e (prepare e (initState e)))) := by
+    refine ⟨preLoop_inv e _ hprep, todoOf_nodup e _, todoOf_leaf e _, ?_, ?_, ?_⟩
+    · intro t ht; rw [preLoop_size, hsz]; exact (todoOf_mem e _ t ht).1
+    · intro t _
+      refine ⟨preLoop_doneFalse e _ hd t, fun r i => ?_⟩
+      rw [preLoop_led, prepare_led]; simp [initState, Ledger.get_empty, usageOf]
+    · intro t sel η _ hdone
+      rw [preLoop_doneFalse e _ hd t] at hdone
+      exact Bool.noConfusion hdone
+  have h3 := pickLoop_doneOrderedT e wf ((todoOf e (preLoop e (prepare e (initState e)))).length + 1)
+    (todoOf e (preLoop e (prepare e (initState e)))) [] _ h2
+  have h4 : DoneOrderedT e (scheduleScenario e (prepare e (initState e))) := by
+    unfold scheduleScenario
+    simp only []
+    split
+    · exact h3
+    · exact DoneOrderedT.of_eq (σ := (pickLoop e ((todoOf e (preLoop e (prepare e (initState e)))).length + 1)
+        (todoOf e (preLoop e (prepare e (initState e)))) [] (preLoop e (prepare e (initState e)))).1) rfl h3
+  intro t sel η hel hdn
+  rw [finishScenario_leafT e _ t hel.leaf] at hdn
+  exact Ordered.of_tst (finishScenario_leafT e _ t hel.leaf) (h4 t sel η hel hdn)
+
 end SP
